@@ -20,6 +20,8 @@ DOC = {
         'C13.R2': 'rehash: drop(original tx) dominates the recv loop; tasks capture a Sender clone; the loop leaves only on Err(recv); every received item is added; the throttle guard is acquired before spawn and dropped inside the task',
         'C13.R3': 'no HashMap/HashSet/DashMap iteration reachable from group_files/write_report (named exceptions)',
         'C13.R4': 'each FilePos-FileLen / FileLen-FileLen is dominated by a comparison of the same operands or its right operand is clamped by min(_, left)',
+        'C13.R10': 'the number of files that can be hashed does not depend on a race between the hashing thread and a helper thread: blocking helper threads are joined (re-evaluates C19.R8)',
+        'C13.R9': 'every run terminates: a pipe handed to the transform program as its standard output is read - the Output variants under which build_command uses Stdio::piped() are among those under which execute moves child.stdout into the stream it returns (otherwise the child blocks on a full pipe while fclones waits for it)',
         'C13.R8': 'with --follow-links the set of scanned files does not depend on which route reaches an entry first (order of the input paths, --threads): the visited mark is level-aware, made when the directory is really read, after the route-specific tests, and links re-visit like directories (re-evaluates C09.R11)',
         'C13.R7': 'the standard input is read once: with --stdin the scan consumes the list, so the isolate roots (root_paths) and their validation use the positional arguments, and --isolate with roots only on stdin is refused with an explicit message',
         'C13.R6': 'no child process shares the standard input or output of fclones (the list of paths of --stdin, the report): every Command created in the library gets an explicit stdin and stdout before it is spawned',
@@ -39,7 +41,10 @@ def run(ctx):
     r5(ctx)
     r6(ctx)
     r7(ctx)
+    r9(ctx)
     from .common import reevaluate
+    from . import c19
+    reevaluate(ctx, 'C13.R10', c19.r8)
     from . import c09
     reevaluate(ctx, 'C13.R8', c09.r11)
     reevaluate(ctx, 'C13.R8', c09.r11b)
@@ -382,6 +387,58 @@ def r6(ctx):
                       'the command created here is spawned with inherited %s: a filter program started as the start-up probe of --transform reads the input paths of `--stdin` before fclones does '
                       '(files silently not scanned, different on every run) and copies them into the report on stdout' % sorted({'stdin', 'stdout'} - have))
     ctx.floor(rule, 'Command::new sites in the library', n, 2)
+
+
+def r9(ctx):
+    """A pipe given to the child as its standard output is read: the Output variants under which build_command pipes the
+    stdout are variants under which execute hands the pipe to the reader."""
+    rule = 'C13.R9'
+    lib = ctx.lib
+    from ..analysis import variant_arms
+    bc = ctx.need_body(rule, 'transform::build_command')
+    ex = ctx.need_body(rule, 'transform::execute')
+    if bc is None or ex is None:
+        return
+    adt = lib.adts.get('transform::Output')
+    if not adt:
+        ctx.missing(rule, 'enum transform::Output')
+        return
+    allv = {v['name'] for v in adt['variants']}
+    # build_command: the stdout(..piped()) calls and the variants of *output_conf that reach them
+    pip = [k for k in bc.calls(r'^std::process::Command::stdout$') if backslice(bc, [k.args[1]]).has_call(r'Stdio::piped$')]
+    if not ctx.floor(rule, 'Command::stdout(Stdio::piped()) in build_command', len(pip), 1, bc.where()):
+        return
+    out_param = [i for i in range(1, bc.argc + 1) if 'transform::Output' in bc.local_ty(i)]
+    piped = set(allv)
+    arms_seen = False
+    for op in out_param:
+        for (sbb, arms, other) in variant_arms(bc, lib, of_local=op):
+            arms_seen = True
+            for v in allv:
+                tgt = arms.get(v, other)
+                if not any(k.bb == tgt or k.bb in bc.reachable(tgt) for k in pip):
+                    piped.discard(v)
+    if not arms_seen:
+        piped = set(allv)
+    # execute: the variants whose arm moves the child's stdout into the returned stream
+    taken = [c for c in ex.calls(r'Option::<T>::take$|Option<.*>::take$') if 'stdout' in backslice(ex, [c.args[0]]).field_names()]
+    if not ctx.floor(rule, 'child.stdout.take() in execute', len(taken), 1, ex.where()):
+        return
+    holders = forward_locals(ex, taken[0].dest[0]) | {taken[0].dest[0]}
+    uses = [c for c in ex.calls(r'::(unwrap|expect|unwrap_or_else|map)$') if op_local(c.args[0]) in holders]
+    read = set()
+    out_local = [i for i in range(1, ex.argc + 1) if 'transform::Output' in ex.local_ty(i)]
+    out_local += [st['p'][0] for blk in ex.blocks for st in blk['stmts'] if st['rv']['k'] == 'ref' and st['rv']['p'][0] in out_local and not st['rv']['p'][1] and not st['p'][1]]
+    for ol in out_local:
+        for (sbb, arms, other) in variant_arms(ex, lib, of_local=ol):
+            for v in allv:
+                tgt = arms.get(v, other)
+                if any(u.bb == tgt or u.bb in ex.reachable(tgt) for u in uses):
+                    read.add(v)
+    unread = sorted(piped - read)
+    ctx.check(not unread, rule, bc.path + '|piped-stdout-is-read', pip[0].where(), 'the child\'s stdout is a pipe only when execute reads it (piped under %s, read under %s)' % (sorted(piped), sorted(read)),
+              'with Output::%s the child gets a pipe as its standard output that nobody reads (execute takes the stream only under %s): a program that prints more than the pipe buffers (64 KiB) blocks in '
+              'write(), fclones blocks in wait() - `group --in-place --transform "tool $IN"` with a chatty tool never ends, holding its permits, so the whole run hangs' % (', '.join(unread), sorted(read)))
 
 
 def r7(ctx):
